@@ -50,7 +50,9 @@ def main():
             if rc == 1 and os.path.isdir(rdir):
                 keep = os.path.join(mdir, "detected_by_" + pid)
                 shutil.rmtree(keep, ignore_errors=True)
-                shutil.copytree(rdir, keep)
+                os.makedirs(keep)
+                for f in sorted(os.listdir(rdir), key=lambda f: os.path.getsize(os.path.join(rdir, f)))[:2]:     # the two smallest replays
+                    shutil.copy(os.path.join(rdir, f), keep)
     finally:
         sh(["git", "-C", "/repo", "worktree", "remove", "--force", work + "/repo"])
         shutil.rmtree(work, ignore_errors=True)
